@@ -188,6 +188,13 @@ impl Property for C09 {
         prop_oneof![
             10 => (bk(), gen::fq(), structured_e(), gen::fq()).prop_map(|(bk, w, (e, family), scale)| Case::Ratio { bk, w, e, scale, family }),
             2 => (bk(), gen::fq_special(), gen::fq_special()).prop_map(|(bk, num, den)| Case::Raw { bk, num, den }),
+            // a structured ratio (sparse canonical / sparse Montgomery limbs, near the modulus) presented with a generic common factor
+            3 => (bk(), gen::fq(), gen::fq(), any::<bool>()).prop_map(|(bk, x, scale, invert)| {
+                let f = &*Q;
+                let sc = if scale.0.is_zero() { N::one() } else { scale.0.clone() };
+                let (num, den) = if invert { (sc.clone(), f.mul(&x.0, &sc)) } else { (f.mul(&x.0, &sc), sc) };
+                Case::Raw { bk, num: Num(num), den: Num(den) }
+            }),
             1 => (bk(), gen::fq(), 0u8..3).prop_map(|(bk, v, z)| match z {
                 0 => Case::Raw { bk, num: Num(N::zero()), den: v },
                 1 => Case::Raw { bk, num: v, den: Num(N::zero()) },
